@@ -330,4 +330,167 @@ theorem layoutModelQ_shape (fl : List Char) (w : WidthArg) (p : PrecArg) (conv :
       rw [this]
       split <;> simp <;> omega
 
+/-! ### base detection on the two parts of a printed rational -/
+
+theorem sep_not_digit (b : Nat) (hb : b = 8 ∨ b = 10 ∨ b = 16) (R : List Char)
+    (hR : ∀ c, R.head? = some c → c = '/' ∨ c = ' ') : ∀ c, R.head? = some c → isDigitIn b c = false := by
+  intro c hc
+  rcases hR c hc with h | h <;> subst h <;> rcases hb with h | h | h <;> rw [h] <;> decide
+
+theorem sep_head (R : List Char) (hR : ∀ c, R.head? = some c → c = '/' ∨ c = ' ') :
+    R.head? ≠ some 'x' ∧ R.head? ≠ some 'X' ∧ R.head? ≠ some '0' := by
+  refine ⟨?_, ?_, ?_⟩ <;> intro h <;> rcases hR _ h with h' | h' <;> cases h'
+
+/-- the numerator as `%Qi` sees it -/
+theorem qi_num_key (fl : List Char) (p : PrecArg) (conv : Conv) (n : Int) (k : Nat) (R : List Char)
+    (hR : ∀ c, R.head? = some c → c = '/' ∨ c = ' ')
+    (hdig : ¬ (n = 0 ∧ precInt p = 0 ∧ ¬ ('#' ∈ fl ∧ conv = .o)))
+    (hhash : conv.base ≠ 10 → n ≠ 0 → '#' ∈ fl)
+    (hk8 : '#' ∈ fl ∧ conv.base = 8 → 1 ≤ k ∨ (qNum p conv n).head? = some '0')
+    (hk0 : conv.base = 10 → n ≠ 0 → k = 0) :
+    ∃ pre body b, qPrefix fl p conv n ++ (List.replicate k '0' ++ (qNum p conv n ++ R)) = pre ++ (body ++ R) ∧
+      Shape 0 b pre body R ∧ (pre = ['0'] ∨ body ≠ []) ∧ strVal b body = n.natAbs := by
+  have hcb := conv_ConvBase conv
+  have hb := ConvBase_base _ _ hcb
+  have hb2 : 2 ≤ conv.base := by omega
+  have hb36 : conv.base ≤ 36 := by omega
+  obtain ⟨hval, hdigs⟩ := natDigits_props conv.base conv.upper (by omega) (digitChar_props _ _ hcb) n.natAbs
+  obtain ⟨hRx, hRX, hR0⟩ := sep_head R hR
+  by_cases hv : n = 0
+  · -- zeros only
+    have hq : qNum p conv n = [] ∨ qNum p conv n = ['0'] := by
+      unfold qNum; rw [hv]; split
+      · left; rfl
+      · right; exact natDigits_zero _ _
+    have hpre : qPrefix fl p conv n = [] := by
+      unfold qPrefix
+      by_cases h16 : conv.base = 16
+      · rcases hq with h | h
+        · exfalso; apply hdig
+          have hq' : qNum p conv n = [] := h
+          unfold qNum at hq'
+          split at hq'
+          · rename_i h3; refine ⟨h3.1, h3.2, ?_⟩; rintro ⟨-, h6⟩; rw [h6] at h16; cases h16
+          · exact absurd hq' (natDigits_ne_nil _ _ _)
+        · simp [h]
+      · simp [h16]
+    obtain ⟨m, hm1⟩ : ∃ m, List.replicate k '0' ++ qNum p conv n = '0' :: List.replicate m '0' := by
+      rcases hq with h | h
+      · have hk1 : 1 ≤ k := by
+          by_contra hk
+          apply hdig
+          have hq' : qNum p conv n = [] := h
+          unfold qNum at hq'
+          split at hq'
+          · rename_i h3
+            refine ⟨h3.1, h3.2, ?_⟩
+            intro h4
+            rcases hk8 ⟨h4.1, by rw [h4.2]; rfl⟩ with h5 | h5
+            · omega
+            · rw [h] at h5; cases h5
+          · exact absurd hq' (natDigits_ne_nil _ _ _)
+        exact ⟨k - 1, by rw [h, List.append_nil, ← List.replicate_succ]; congr 1; omega⟩
+      · exact ⟨k, by rw [h, ← List.replicate_succ, List.replicate_succ']⟩
+    refine ⟨['0'], List.replicate m '0', 8, ?_, ⟨?_, sep_not_digit 8 (by simp) R hR, Or.inr (Or.inr (Or.inl ⟨rfl, rfl, rfl, ?_, ?_⟩))⟩,
+      Or.inl rfl, ?_⟩
+    · rw [hpre, List.nil_append, ← List.append_assoc, hm1]; rfl
+    · intro c hc; rw [(List.mem_replicate.mp hc).2]; decide
+    · cases m with
+      | zero => simpa using hRx
+      | succ j => simp [List.replicate_succ]
+    · cases m with
+      | zero => simpa using hRX
+      | succ j => simp [List.replicate_succ]
+    · have := strVal_zeros 8 m []; rw [List.append_nil] at this; rw [this, hv]; rfl
+  · have hm : n.natAbs ≠ 0 := by omega
+    have hpd : qNum p conv n = natDigits conv.base conv.upper n.natAbs := by
+      unfold qNum; rw [if_neg]; rintro ⟨h, -⟩; exact hv h
+    have hhd := natDigits_head_ne_zero conv.base conv.upper hb2 hb36 n.natAbs hm
+    have hne := natDigits_ne_nil conv.base conv.upper n.natAbs
+    unfold qPrefix
+    rw [hpd] at hk8 ⊢
+    generalize natDigits conv.base conv.upper n.natAbs = ds at *
+    obtain ⟨d0, dt, rfl⟩ : ∃ d0 dt, ds = d0 :: dt := by
+      cases ds with
+      | nil => exact absurd rfl hne
+      | cons c t => exact ⟨c, t, rfl⟩
+    have hd0 : d0 ≠ '0' := by simpa using hhd
+    have hd0s := digit_not_special conv.base d0 (hdigs d0 List.mem_cons_self)
+    rcases hb with h8 | h10 | h16
+    · have hh : '#' ∈ fl := hhash (by rw [h8]; decide) hv
+      have hk1 : 1 ≤ k := by
+        rcases hk8 ⟨hh, h8⟩ with h | h
+        · exact h
+        · simp at h; exact absurd h hd0
+      obtain ⟨k', rfl⟩ : ∃ k', k = k' + 1 := ⟨k - 1, by omega⟩
+      rw [h8] at hval hdigs
+      refine ⟨['0'], List.replicate k' '0' ++ (d0 :: dt), 8, ?_,
+        ⟨?_, sep_not_digit 8 (by simp) R hR, Or.inr (Or.inr (Or.inl ⟨rfl, rfl, rfl, ?_, ?_⟩))⟩, Or.inl rfl, ?_⟩
+      · simp [h8, List.replicate_succ]
+      · intro c hc
+        rcases List.mem_append.mp hc with h | h
+        · rw [(List.mem_replicate.mp h).2]; decide
+        · exact hdigs c h
+      · cases k' with
+        | zero => simpa using hd0s.2.2.2.1
+        | succ j => simp [List.replicate_succ]
+      · cases k' with
+        | zero => simpa using hd0s.2.2.2.2.1
+        | succ j => simp [List.replicate_succ]
+      · rw [strVal_zeros]; exact hval
+    · have hk : k = 0 := hk0 h10 hv
+      rw [h10] at hval hdigs
+      refine ⟨[], d0 :: dt, 10, ?_, ⟨hdigs, sep_not_digit 10 (by simp) R hR, Or.inr (Or.inl ⟨rfl, rfl, rfl, by simpa using hd0⟩)⟩,
+        Or.inr (by simp), hval⟩
+      rw [hk]; simp [h10]
+    · have hh : '#' ∈ fl := hhash (by rw [h16]; decide) hv
+      have hsb : qSb fl conv = (if conv.upper then ['0', 'X'] else ['0', 'x']) := by unfold qSb; simp [hh, h16]
+      rw [h16] at hval hdigs
+      refine ⟨if conv.upper then ['0', 'X'] else ['0', 'x'], List.replicate k '0' ++ (d0 :: dt), 16, ?_,
+        ⟨?_, sep_not_digit 16 (by simp) R hR, Or.inr (Or.inr (Or.inr ⟨rfl, rfl, ?_⟩))⟩, Or.inr (by simp), ?_⟩
+      · rw [hsb]; simp [h16, hd0]
+      · intro c hc
+        rcases List.mem_append.mp hc with h | h
+        · rw [(List.mem_replicate.mp h).2]; decide
+        · exact hdigs c h
+      · cases conv.upper <;> simp
+      · rw [strVal_zeros]; exact hval
+
+/-- the denominator (≠ 1) as `%Qi` sees it -/
+theorem qi_den_key (fl : List Char) (conv : Conv) (d : Int) (hd : 0 < d) (R : List Char)
+    (hR : ∀ c, R.head? = some c → c = '/' ∨ c = ' ')
+    (hhash : conv.base ≠ 10 → '#' ∈ fl) :
+    ∃ pre body b, qSb fl conv ++ natDigits conv.base conv.upper d.natAbs = pre ++ body ∧
+      Shape 0 b pre body R ∧ (pre = ['0'] ∨ body ≠ []) ∧ strVal b body = d.natAbs := by
+  have hcb := conv_ConvBase conv
+  have hb := ConvBase_base _ _ hcb
+  have hb2 : 2 ≤ conv.base := by omega
+  have hb36 : conv.base ≤ 36 := by omega
+  obtain ⟨hval, hdigs⟩ := natDigits_props conv.base conv.upper (by omega) (digitChar_props _ _ hcb) d.natAbs
+  have hhd := natDigits_head_ne_zero conv.base conv.upper hb2 hb36 d.natAbs (by omega)
+  have hne := natDigits_ne_nil conv.base conv.upper d.natAbs
+  generalize natDigits conv.base conv.upper d.natAbs = ds at *
+  obtain ⟨d0, dt, rfl⟩ : ∃ d0 dt, ds = d0 :: dt := by
+    cases ds with
+    | nil => exact absurd rfl hne
+    | cons c t => exact ⟨c, t, rfl⟩
+  have hd0 : d0 ≠ '0' := by simpa using hhd
+  have hd0s := digit_not_special conv.base d0 (hdigs d0 List.mem_cons_self)
+  rcases hb with h8 | h10 | h16
+  · have hh : '#' ∈ fl := hhash (by rw [h8]; decide)
+    have hsb : qSb fl conv = ['0'] := by unfold qSb; simp [hh, h8]
+    rw [h8] at hval hdigs
+    exact ⟨['0'], d0 :: dt, 8, by rw [hsb], ⟨hdigs, sep_not_digit 8 (by simp) R hR,
+      Or.inr (Or.inr (Or.inl ⟨rfl, rfl, rfl, by simpa using hd0s.2.2.2.1, by simpa using hd0s.2.2.2.2.1⟩))⟩, Or.inl rfl, hval⟩
+  · have hsb : qSb fl conv = [] := by unfold qSb; split <;> simp [h10]
+    rw [h10] at hval hdigs
+    exact ⟨[], d0 :: dt, 10, by rw [hsb], ⟨hdigs, sep_not_digit 10 (by simp) R hR,
+      Or.inr (Or.inl ⟨rfl, rfl, rfl, by simpa using hd0⟩)⟩, Or.inr (by simp), hval⟩
+  · have hh : '#' ∈ fl := hhash (by rw [h16]; decide)
+    have hsb : qSb fl conv = (if conv.upper then ['0', 'X'] else ['0', 'x']) := by unfold qSb; simp [hh, h16]
+    rw [h16] at hval hdigs
+    refine ⟨if conv.upper then ['0', 'X'] else ['0', 'x'], d0 :: dt, 16, by rw [hsb], ⟨hdigs, sep_not_digit 16 (by simp) R hR,
+      Or.inr (Or.inr (Or.inr ⟨rfl, rfl, ?_⟩))⟩, Or.inr (by simp), hval⟩
+    cases conv.upper <;> simp
+
 end Mpir.Scanf
